@@ -2,6 +2,7 @@
     PFN regions, [pfn_regions_from_bitmap], [find_pfn_region] (binary search),
     [find_pfn_file_map], [sort_pfn_file_maps]. *)
 From Coq Require Import NArith List Bool.
+From KdV Require Pfn.BitmapModel.
 From KdV Require Import Fmt.Codec.
 Import ListNotations.
 Local Open Scope N_scope.
@@ -57,6 +58,27 @@ Fixpoint runs (elemsz start_pfn end_pfn : N) (bits : list bool) (pfn pos : N) (c
 Definition regions_from_bitmap (msb0 : bool) (bm : bytes)
            (start_pfn end_pfn fileoff elemsz : N) : list pfn_region :=
   runs elemsz start_pfn end_pfn (bits_of_bytes msb0 bm) 0 fileoff None.
+
+(** What the format readers call: the word-level model of
+    [pfn_regions_from_bitmap] and its scanners [skip_clear_*] / [skip_set_*]
+    (Pfn/BitmapModel.v, tied to pfn.c by C07's white-box run and proved there
+    to yield the maximal runs), with the repaired first-byte expression of
+    [skip_set_msb0] (fix 28), an empty region array to start with and no
+    allocation failure.  [al] is the address of the bitmap buffer modulo 4 (it
+    decides where the aligned 32-bit loop starts; the result does not depend
+    on it: [PfnBridge.regions_of_spec]).  The list-level function [runs] above
+    is what the proofs reason with; the two are proved equal. *)
+Definition of_region (r : BitmapModel.region) : pfn_region :=
+  {| rg_pfn := BitmapModel.g_pfn r; rg_cnt := BitmapModel.g_cnt r; rg_pos := BitmapModel.g_pos r |}.
+
+Definition regions_of (msb0 : bool) (al : N) (bm : bytes) (start_pfn end_pfn fileoff elemsz : N)
+  : res (list pfn_region) :=
+  match BitmapModel.regions_from_bitmap true msb0 al bm start_pfn end_pfn fileoff elemsz [] [] with
+  | (BitmapModel.ROk rs, _) => Ok (map of_region rs)
+  | (BitmapModel.RNoMem _, _) => Err ERR_SYSTEM
+  | (BitmapModel.ROob, _) => Err ERR_UNMODELLED
+  | (BitmapModel.RFuel, _) => Err ERR_UNMODELLED
+  end.
 
 (** [find_pfn_region]: binary search for the region containing [pfn] or the
     closest higher one *)
